@@ -546,48 +546,55 @@ def hist_sig(calls, seq, kind):
 
 
 def hist_main(idx, nparts, tier):
-    """Entry point of the fresh interpreter started by a 'hist' shard.  This process never calls unjelly itself: it
-    forks one child per first call c1; the child runs c1 and then the whole call alphabet, each call judged by its own
-    policy.  A failing call is re-run in further fresh forks to find the shortest history that reproduces it."""
+    """Entry point of the fresh interpreter started by a 'hist' shard.  This process never calls unjelly itself.
+    Phase 1: one forked child runs the long history  c1, <whole call alphabet>, c1', <whole call alphabet>, ...  for
+    this shard's first calls, each call judged by its own policy.  Phase 2: every failing call is re-run in further
+    fresh forks of this (still pristine) process to find the shortest history that reproduces it: alone, after the
+    block's c1, or after one predecessor found by bisection."""
     import json
     env = Env.get()
     try:
         calls = hist_calls()
         n = len(calls)
-        evaluations = 0
-        found = {}      # (index of failing call, kind) -> (c1, position in the child's sequence)
+        seq = []
         for c1 in range(n):
-            if c1 % nparts != idx:
-                continue
-            seq = [c1] + list(range(n))
-            res = in_fresh_fork(lambda: run_history(env, calls, seq))
-            evaluations += len(seq)
-            for pos, problems in enumerate(res):
-                for kind, what in problems:
-                    found.setdefault((seq[pos], kind), (c1, pos, what))
+            if c1 % nparts == idx:
+                seq.append(c1)
+                seq.extend(range(n))
+        res = in_fresh_fork(lambda: run_history(env, calls, seq))
+        found = {}      # (label, policy, kind) of the failing call -> position of its first failure
+        for pos, problems in enumerate(res):
+            for kind, what in problems:
+                found.setdefault((calls[seq[pos]][2], calls[seq[pos]][0], kind), (pos, what))
         findings = []
-        done_sigs = set()
-        for (c2, kind), (c1, pos, what) in sorted(found.items()):
-            if len(findings) >= 8:
-                break
-            group = (calls[c2][2], calls[c2][0], kind)
-            if group in done_sigs:
-                continue
-            done_sigs.add(group)
-            seq_full = ([c1] + list(range(n)))[:pos + 1]
-            best = None
-            for cand in [[c2], [c1, c2]] + [[x, c2] for x in range(n) if x != c1]:
-                r = in_fresh_fork(lambda: run_history(env, calls, cand))
-                if any(k == kind for k, _ in r[-1]):
-                    best = cand
-                    break
-            if best is None:
-                best = seq_full
+        for (label, pname, kind), (pos, what) in sorted(found.items(), key=lambda kv: kv[1][0])[:6]:
+            c2 = seq[pos]
+
+            def fails(history):
+                r = in_fresh_fork(lambda: run_history(env, calls, history + [c2]))
+                return any(k == kind for k, _ in r[-1])
+
+            preds = sorted(set(seq[:pos]))
+            if fails([]):
+                best = [c2]
+            elif not fails(preds):
+                best = seq[:pos + 1]            # order-dependent: keep the literal history
+            else:
+                cur = preds
+                while len(cur) > 1:
+                    half = cur[:len(cur) // 2]
+                    if fails(half):
+                        cur = half
+                    elif fails(cur[len(cur) // 2:]):
+                        cur = cur[len(cur) // 2:]
+                    else:
+                        break
+                best = cur + [c2]
             findings.append({"sig": hist_sig(calls, best, kind),
                              "detail": "history %s: last call %s" % (
                                  [[calls[i][0], repr(calls[i][1])] for i in best[-3:]], what),
-                             "seq": best})
-        sys.stdout.write("C45HIST " + json.dumps({"evaluations": evaluations, "ncalls": n, "findings": findings}) + "\n")
+                             "seq": best[-40:]})
+        sys.stdout.write("C45HIST " + json.dumps({"evaluations": len(seq), "ncalls": n, "findings": findings}) + "\n")
     finally:
         env.close()
 
@@ -962,7 +969,7 @@ def atom_roundtrips(env, stats):
 
 # ----------------------------------------------------------------------------------------------
 NSEC = 12
-NHIST = 6
+NHIST = 4
 NRT = 32
 
 
